@@ -25,6 +25,8 @@ import logging
 import os
 import random
 import shutil
+import subprocess
+import sys
 import tempfile
 from typing import Any, Dict, Iterator, List, Optional, Tuple
 from unittest import mock
@@ -344,8 +346,11 @@ def build_results(case_results: Dict[str, Any], rec: _Recorder) -> Any:
     from antismash.common.serialiser import AntismashResults
     cls = classes()
     records = []
+    descriptions = case_results.get("descriptions") or []
     for i, fault in enumerate(case_results["records"]):
-        records.append(cls["StubRecord"]("ACGTTGCA", id=f"r{i}", name=f"r{i}").arm(rec, i, fault))
+        description = descriptions[i] if i < len(descriptions) and descriptions[i] else f"record {i}"
+        records.append(cls["StubRecord"]("ACGTTGCA", id=f"r{i}", name=f"r{i}", description=description)
+                       .arm(rec, i, fault))
     results = []
     for i, mod_dict in enumerate(case_results["results"]):
         built: Dict[str, Any] = {}
@@ -527,7 +532,8 @@ class C20(Property):
             "command-line parser (log file inside / below / outside the directory) x directory states (incl. foreign "
             "files called profiling_results) x results x 11 option sets over --profiling / --debug / --verbose / "
             "--list-plugins / --check-prereqs / failing prerequisites / invalid options / no module; "
-            "_run_antismash on directory x fault-position products; non-trivial = a fault with pre-existing target "
+            "write_to_file / dump_records in a second interpreter whose default text encoding is ASCII, non-ASCII "
+            "characters at every record/module position; _run_antismash on directory x fault-position products; non-trivial = a fault with pre-existing target "
             "content, a non-empty existing directory, or any pipeline run")
     TRUSTED = ["POSIX semantics of open(path, 'w') (truncate/create) and of file objects being flushed when dropped "
                "(CPython reference counting) are taken as given",
@@ -722,7 +728,8 @@ class C20(Property):
         for mask in range(1 << len(kinds)):
             chosen = [k for b, k in enumerate(kinds) if mask >> b & 1]
             entries = self.make_entries(chosen)
-            modes = list(self.MODES) if full else ["fresh", "reuse", rng.choice(["upper", "bz2", "fresh-gz"])]
+            modes = list(self.MODES) if full else ["fresh", "reuse"] + (
+                [rng.choice(["upper", "bz2", "fresh-gz"])] if mask % 4 == 0 else [])
             for mode in modes:
                 dirnames = DIR_NAMES if full else [rng.choice(DIR_NAMES)]
                 for dirname in dirnames:
@@ -744,6 +751,42 @@ class C20(Property):
             rng.shuffle(entries)
             yield self.prep_case(entries, rng.choice(list(self.MODES)), "dir", rng.choice(DIR_NAMES),
                                  rng.choice([None, "run.log", names[0]]), rng.choice(["plain", "dotted"]))
+
+    def locale_cases(self, rng: random.Random, full: bool) -> Iterator[Dict[str, Any]]:
+        """non-ASCII characters at every record / module position (value, key, nested conversion, record
+        description, timings), written by an interpreter whose default text encoding is ASCII"""
+        texts = ["β-lactone", "Müller", "日本"]
+        limit = 3 if full else 2
+        for n in range(1, limit + 1):
+            for m in range(0, limit + 1):
+                def grid() -> List[Any]:
+                    return [[[f"m{j}", ["mod", True, GOOD]] for j in range(m)] for _ in range(n)]
+                plans: List[Tuple[List[Any], List[Any], List[Any], List[Any]]] = []
+                for i in range(n):
+                    desc: List[Any] = [None] * n
+                    desc[i] = "Streptomyces sp. Müller 7, β-lactone producer"
+                    plans.append(([None] * n, grid(), ["dict", []], desc))
+                    for j in range(m):
+                        for payload in (["str", rng.choice(texts)], ["dict", [["clé", ["int", 1]]]],
+                                        ["conv", ["list", [["str", "é"], ["seq", "ACGT"]]]]):
+                            res = grid()
+                            res[i][j] = [f"m{j}", ["mod", True, payload]]
+                            plans.append(([None] * n, res, ["dict", []], []))
+                        # a conversion fault elsewhere with non-ASCII text around it: still fail-safe
+                        res = grid()
+                        res[i][j] = [f"m{j}", ["mod", True, ["str", "β"]]]
+                        res[n - 1][m - 1] = [f"m{m - 1}", ["invalid", ["dict", 0]]]
+                        plans.append(([None] * n, res, ["dict", []], []))
+                plans.append(([None] * n, grid(), ["dict", [["récord", ["int", 1]]]], []))
+                plans.append(([None] * n, grid(), ["dict", []], []))          # pure ASCII control
+                for recs, res, timings, desc in plans:
+                    for fn in ("write_to_file", "dump_records"):
+                        for handle in ("existing", "missing"):
+                            case = self.write_case(fn, handle, recs, res, timings)
+                            case["results"]["descriptions"] = desc
+                            case["locale"] = "C"
+                            case["family"] = "locale"
+                            yield case
 
     def logname_cases(self, rng: random.Random, full: bool) -> Iterator[Dict[str, Any]]:
         """which entry is "our own log file": names that are prefixes / extensions of the log file's name,
@@ -910,7 +953,7 @@ class C20(Property):
             for b in self.PATH_EDGE if full else rng.sample(self.PATH_EDGE, 6):
                 yield {"kind": "path", "a": a, "b": b}
         atoms = ["a", "b", "run", "run.log", ".", "..", "", "x.y", ".h", "é"]
-        for _ in range(6000 if full else 600):
+        for _ in range(6000 if full else 300):
             def rand_path() -> str:
                 lead = rng.choice(["", "", "/", "/", "//", "///"])
                 return lead + "/".join(rng.choice(atoms) for _ in range(rng.choice([0, 1, 2, 3, 5])))
@@ -952,9 +995,10 @@ class C20(Property):
     def cases(self, rng: random.Random, tier: str, deep: bool) -> Iterator[Dict[str, Any]]:
         full = deep
         yield from self.grid_cases(4 if full else 3)
-        for _ in range(20000 if full else 2500):
+        for _ in range(20000 if full else 1500):
             yield self.rand_write(rng)
         yield from self.prepare_cases(rng, full)
+        yield from self.locale_cases(rng, full)
         yield from self.logname_cases(rng, full)
         yield from self.path_cases(rng, full)
         yield from self.names_cases(rng, full)
@@ -967,7 +1011,46 @@ class C20(Property):
                                                    "n x m grid up to the limit; every subset of the 9 entry kinds"}
 
     # ------------------------------------------------------------------ implementation adapter
+    # ------------------------------------------------------------------ a second interpreter, ASCII locale
+    _worker: Optional[subprocess.Popen] = None
+
+    def worker(self) -> subprocess.Popen:
+        """one child interpreter per check run whose default text encoding is ASCII (LC_ALL=C, UTF-8 mode and
+        locale coercion off): cases that name a locale run their real-code part there"""
+        if self._worker is None or self._worker.poll() is not None:
+            env = {k: v for k, v in os.environ.items() if not (k.startswith("LC_") or k in ("LANG", "LANGUAGE"))}
+            env.update({"LC_ALL": "C", "PYTHONUTF8": "0", "PYTHONCOERCECLOCALE": "0"})
+            root = os.path.dirname(os.path.dirname(os.path.dirname(os.path.abspath(__file__))))
+            self._worker = subprocess.Popen([sys.executable, "-m", "harness.props.c20", "--worker"], env=env, cwd=root,
+                                            stdin=subprocess.PIPE, stdout=subprocess.PIPE, stderr=subprocess.DEVNULL,
+                                            text=True, encoding="ascii", errors="backslashreplace")
+            import atexit
+            atexit.register(self.stop_worker)
+        return self._worker
+
+    def stop_worker(self) -> None:
+        if self._worker is not None and self._worker.poll() is None:
+            try:
+                self._worker.stdin.close()      # type: ignore[union-attr]
+                self._worker.wait(timeout=10)
+            except Exception:  # pylint: disable=broad-except
+                self._worker.kill()
+        self._worker = None
+
+    def run_in_worker(self, case: Dict[str, Any]) -> Dict[str, Any]:
+        proc = self.worker()
+        assert proc.stdin is not None and proc.stdout is not None
+        proc.stdin.write(std_json.dumps({k: v for k, v in case.items() if k != "locale"}) + "\n")
+        proc.stdin.flush()
+        line = proc.stdout.readline()
+        if not line:
+            from ..framework import Infra
+            raise Infra("the ASCII-locale worker died")
+        return std_json.loads(line)
+
     def run_impl(self, case: Dict[str, Any]) -> Dict[str, Any]:
+        if case.get("locale"):
+            return self.run_in_worker(case)
         kind = case["kind"]
         path = self.scratch()
         try:
@@ -1263,8 +1346,11 @@ class C20(Property):
     def driver_line(self, case: Dict[str, Any], obs: Dict[str, Any]) -> Optional[Dict[str, Any]]:
         impl = None if "trace" not in obs else obs
         if case["kind"] == "write":
+            encoding = str(obs.get("encoding", "utf-8")).lower()
+            locale_codec = "ascii" if encoding in ("ascii", "ansi_x3.4-1968", "646", "us-ascii") else \
+                "latin-1" if encoding in ("latin-1", "iso-8859-1", "iso8859-1") else "utf-8"
             return {"kind": "write", "fn": case["fn"], "handle": case["handle"], "dir": case["dir"],
-                    "results": case["results"], "impl": impl}
+                    "results": case["results"], "impl": impl, "locale": locale_codec}
         if case["kind"] == "path":
             return {"kind": "path", "a": case["a"], "b": case["b"]}
         paths = obs.get("paths") or {"cwd": "/", "name": "/unobserved", "logfile": ""}
@@ -1323,6 +1409,8 @@ class C20(Property):
             had_old = any(n == case["handle"][-1] and c for n, _, c in case["dir"])
             tags += [case["fn"], "handle-" + case["handle"][0], "fault" if fault else "no-fault",
                      "err-" + str(obs["err"])]
+            if case.get("locale"):
+                tags.append("default-encoding-" + str(obs.get("encoding")))
             nontrivial = fault and had_old
         elif case["kind"] == "prepare":
             tags += ["accepts" if spec["accepts"] else "refuses", case.get("family", "subsets"),
@@ -1374,3 +1462,25 @@ class C20(Property):
 
 
 PROP = C20
+
+
+def _worker_main() -> None:
+    """line protocol: one case per line in, one observation per line out (ASCII-only JSON)"""
+    import locale
+    prop = C20()
+    encoding = locale.getencoding()
+    for line in sys.stdin:
+        line = line.strip()
+        if not line:
+            continue
+        try:
+            obs = prop.run_impl(std_json.loads(line))
+        except BaseException as exc:  # pylint: disable=broad-except
+            obs = {"err": "other:" + type(exc).__name__, "_trace": str(exc)[:300]}
+        obs["encoding"] = encoding
+        sys.stdout.write(std_json.dumps(obs) + "\n")
+        sys.stdout.flush()
+
+
+if __name__ == "__main__" and "--worker" in sys.argv:
+    _worker_main()
